@@ -110,6 +110,6 @@ Definition ex_case : tcase :=
         r_trace := [(0, EA (LDs 1)); (0, EA LCore); (0, ER LCore); (0, ER (LDs 1)); (1, EA (LDs 1)); (1, ER (LDs 1))];
         r_errs := [[false]; [false]];
         r_feeds := [(LCore, [1%N]); (LDs 1, [1; 1; 1001; 1001]%N)];
-        r_snaps := [(LDs 1, 2%N)]; r_bad := 0%N |} ] |}.
+        r_snaps := [(LDs 1, 2%N)]; r_times := [(LDs 1, [0; 0; 1; 1]%N)]; r_lookups := [(1001, 1001)%N]; r_bad := 0%N |} ] |}.
 Example C05_nonvacuous_3 : case_wf ex_case = true /\ agree fixed ex_case = true /\ spec_ok ex_case = true.
 Proof. vm_compute. repeat split; reflexivity. Qed.
